@@ -191,7 +191,7 @@ class Ctx:
         s.nontrivial = False
         s.counting = True     # calls made while False are set-up, not counted as non-trivial cases
 
-    def call(s, op, *args, suite=None, impl_only=False, model_args=None, model_op=None):
+    def call(s, op, *args, suite=None, impl_only=False, model_args=None, model_op=None, impl_extra=0):
         """impl_only: the model is not asked (bulk sweeps; harness-only ops).
         model_args/model_op: the model gets a different spelling of the same request (e.g. `flow`
         without the reload arguments, which the model treats as the identity)."""
@@ -206,9 +206,15 @@ class Ctx:
         toks = [a if isinstance(a, str) else (ohx(a) if (a is None or isinstance(a, (bytes, bytearray))) else str(a))
                 for a in args]
         st, pl = s.proc.call(suite or s.suite, op, toks)
+        extra = []
+        if impl_extra and s.side == "impl" and st == "OK":
+            # trailing output tokens that only the harness reports (e.g. the callback trace of an external key)
+            extra, pl = pl[-impl_extra:], pl[:-impl_extra]
         s.trace.append({"op": rec_op, "suite": suite or s.suite, "args": toks, "status": st,
                         "payload": pl, "impl_only": impl_only, "counted": s.counting})
-        return Res(st, pl)
+        res = Res(st, pl)
+        res.extra = extra
+        return res
 
     def expect(s, cond, what):
         s.oracle.append((bool(cond), what))
@@ -266,8 +272,10 @@ def run_case(pair, case):
     fn, suite, params = case["script"], case["suite"], case.get("params", {})
     res = {"case": {k: v for k, v in case.items() if k != "script"}, "script": fn.__name__}
     sides = {}
+    shared = {}
     for side, proc in (("impl", pair.impl), ("model", pair.model)):
         ctx = Ctx(proc, side, suite, case.get("seed", 0))
+        ctx.shared = shared      # written by the impl run (first), read by the model run: replay of opaque functions (Argon2)
         try:
             fn(ctx, **params)
         except Stop:
